@@ -3,7 +3,7 @@
 # confirms a seeded change in a scratch worktree of /repo HEAD: demo fails with it, passes without it, the
 # repository's own test-suite still passes with it. Writes /verif/seeded/<name>/confirm.txt. Removes the worktree.
 name=$1; patch=$2; demo=$3; notest=$4
-wt=/tmp/seedwt/$name
+wt=/tmp/seedwt/${name}${SUFFIX}
 mkdir -p /tmp/seedwt /verif/seeded/$name
 git -C /repo worktree remove --force $wt 2>/dev/null
 git -C /repo worktree add -q --detach $wt HEAD || exit 2
